@@ -9,7 +9,8 @@ CONSTANTS
   ReaderStops = FALSE
   TrackUsed = FALSE
   ConnEmptyEOFQuirk = TRUE
-INVARIANTS ConformErr ConformRemoteKey ConformFlush ConformPend ConformPipe ConformNonce ConformPayload ConformSize ConformConn KeyBijection
+INVARIANTS ConformErr ConformRemoteKey ConformFlush ConformPend ConformPipe ConformNonce ConformPayload ConformSize ConformHdrLen ConformConn ConformConnPayload ConformHeld KeyBijection
   TypeOK HsSound HsComplete HsWrongKey HsOrder KeysAgree InSync PrefixBeforeFailure ReadOkIffIntact ReadYieldsNext
   PristinePipe FlushCount NoNonceReuse DistinctSendKeys
+  HeldAreDelivered HalfPcOK ConnAccounting CLoadOkIffIntact
 CHECK_DEADLOCK TRUE
